@@ -55,7 +55,7 @@ Proof.
   - eapply Permutation_in; [apply Permutation_sym, isortZ_perm|exact H].
 Qed.
 
-Lemma sortSelectedPages_nodup m : NoDup (map fst m) -> NoDup (sortSelectedPages m).
+Lemma sortSelectedPages_nodup (m : list (Z * bool)) : NoDup (map fst m) -> NoDup (sortSelectedPages m).
 Proof.
   intros H. unfold sortSelectedPages.
   eapply Permutation_NoDup; [apply Permutation_sym, isortZ_perm|]. apply selected_keys_nodup. exact H.
@@ -67,7 +67,7 @@ Lemma sortSelectedPages_spec_lemma : forall m,
   (NoDup (map fst m) -> NoDup (sortSelectedPages m)) /\
   (NoDup (map fst m) -> forall p, In (p, false) m -> ~ In p (sortSelectedPages m)).
 Proof.
-  intros m. split; [apply isortZ_sorted|]. split; [apply sortSelectedPages_in|]. split; [apply sortSelectedPages_nodup|].
+  intros m. split; [apply isortZ_sorted|]. split; [apply sortSelectedPages_in|]. split; [exact (sortSelectedPages_nodup m)|].
   intros Hnd p Hf Hin. apply sortSelectedPages_in in Hin.
   (* two entries with the same key *)
   clear -Hnd Hf Hin. induction m as [|(q, b) t IH]; [contradiction|].
@@ -80,7 +80,7 @@ Proof.
 Qed.
 
 (* a deselected key is not a selected one (distinct keys) *)
-Lemma deselected_not_selected m p : NoDup (map fst m) -> In (p, false) m -> ~ In (p, true) m.
+Lemma deselected_not_selected (m : list (Z * bool)) p : NoDup (map fst m) -> In (p, false) m -> ~ In (p, true) m.
 Proof.
   intros Hnd Hf Ht. destruct (sortSelectedPages_spec_lemma m) as (_ & Hin & _ & Hdes).
   apply (Hdes Hnd p Hf). apply Hin. exact Ht.
@@ -121,7 +121,7 @@ Proof.
   destruct (map_once m _ _ Hperm Hnd H0) as (H1 & H2 & H3 & H4).
   destruct Ha as (HN & _).
   destruct (padTo_spec (slice_len (sortSelectedPages m)) (2 * N) (slice_len_nonneg _) ltac:(lia)) as (Hm & Hr).
-  repeat split; try assumption; rewrite ?H4, ?Hlen; try lia. exact Hm.
+  repeat split; try assumption; rewrite ?H4, ?Hlen; first [lia | exact Hm].
 Qed.
 
 Lemma map_multifolio_partial_lemma : forall IW N bt bd ls tf folio m,
@@ -140,7 +140,7 @@ Proof.
   destruct (map_once m _ _ Hperm Hnd H0) as (H1 & H2 & H3 & H4).
   destruct Ha as (HN & _).
   destruct (padTo_spec (slice_len (sortSelectedPages m)) (2 * N) (slice_len_nonneg _) ltac:(lia)) as (Hm & Hr).
-  repeat split; try assumption; rewrite ?H4, ?Hlen; try lia. exact Hm.
+  repeat split; try assumption; rewrite ?H4, ?Hlen; first [lia | exact Hm].
 Qed.
 
 Lemma map_nup_lemma : forall IW N m, 0 < N ->
